@@ -14,7 +14,11 @@ from .net import DrawnPolicy, WholePolicy
 from .storage import SEAM, _real_connect
 from .world import Sim, fresh_dir
 
-HOSTS = ["alpha.sim", "beta.sim", "gamma.sim"]
+# the last two are look-alikes under SQL LIKE ('_' is a wildcard there); the CA fixtures only
+# name the first three (NCA), so CA-verified runs stay on those
+HOSTS = ["alpha.sim", "beta.sim", "gamma.sim", "my_cap.sim", "my-cap.sim"]
+NCA = 3
+HOST_WEIGHTS = [3, 3, 3, 1, 1]
 PORTS = [1965, 7070]
 
 
